@@ -255,6 +255,11 @@ fn run_case(seed: u64, index: u64, rich: bool, rep: &mut Report) {
         if ia != RVal::Array(ra.clone()) { fails.push(json!({"property": "C03", "class": "array-differs-from-reference", "after": script.last(), "impl": format!("{:?}", ia), "reference": format!("{:?}", ra)})); }
         if im != RVal::Map(rm.clone()) { fails.push(json!({"property": "C03", "class": "map-differs-from-reference", "after": script.last(), "impl": format!("{:?}", im), "reference": format!("{:?}", rm)})); }
         if ix != rx { fails.push(json!({"property": "C03", "class": "xml-differs-from-reference", "after": script.last(), "impl": format!("{:?}", ix), "reference": format!("{:?}", rx)})); }
+        // lengths in the configured unit (embeds count one) against the reference structures
+        let want_t: u32 = rt.iter().map(|e| match e { Elem::Ch(c, _) => unit(*c, bytes), Elem::Embed(..) => 1 }).sum();
+        for (what, got, want) in [("text", t.len(&txn), want_t), ("array", a.len(&txn), ra.len() as u32), ("map", m.len(&txn), rm.len() as u32), ("xml children", x.len(&txn), rx.len() as u32)] {
+            if got != want { fails.push(json!({"property": "C03", "class": "length-differs-from-reference", "type": what, "len": got, "reference_len": want, "after": script.last()})); }
+        }
         if !fails.is_empty() { break; }
     }
     rep.evaluations += 1;
